@@ -1306,3 +1306,121 @@ func rulePayloadBeforeFeeLoop(c *report.Ctx) {
 		}
 	}
 }
+
+var bigMutators = map[string]bool{"Add": true, "Sub": true, "Mul": true, "Div": true, "Mod": true, "DivMod": true, "Quo": true, "Rem": true, "QuoRem": true,
+	"And": true, "AndNot": true, "Or": true, "Xor": true, "Not": true, "Lsh": true, "Rsh": true, "Neg": true, "Abs": true, "Exp": true, "ModInverse": true, "Sqrt": true,
+	"Set": true, "SetInt64": true, "SetUint64": true, "SetBytes": true, "SetBit": true, "SetBits": true, "SetString": true, "GCD": true, "ModSqrt": true, "Rand": true}
+
+// fromPackageVar: does v come (without a copy) from a package-level variable?
+func fromPackageVar(v ssa.Value, depth int) *ssa.Global {
+	if depth > 6 {
+		return nil
+	}
+	switch x := v.(type) {
+	case *ssa.UnOp:
+		if x.Op == token.MUL {
+			if g, ok := x.X.(*ssa.Global); ok {
+				return g
+			}
+			return fromPackageVar(x.X, depth+1)
+		}
+	case *ssa.Lookup:
+		return fromPackageVar(x.X, depth+1)
+	case *ssa.Extract:
+		return fromPackageVar(x.Tuple, depth+1)
+	case *ssa.IndexAddr:
+		return fromPackageVar(x.X, depth+1)
+	case *ssa.FieldAddr:
+		return fromPackageVar(x.X, depth+1)
+	case *ssa.Global:
+		return x
+	case *ssa.Phi:
+		for _, e := range x.Edges {
+			if g := fromPackageVar(e, depth+1); g != nil {
+				return g
+			}
+		}
+	}
+	return nil
+}
+
+// ruleSharedBigIntsImmutable (C13/C14): the package-level big.Int constants are never the receiver of a mutating method.
+func ruleSharedBigIntsImmutable(c *report.Ctx, pkgs []string, floor int) {
+	p := c.P
+	c.Rule("shared-bigints-immutable", "package-level *big.Int values (masks, moduli, curve constants) are only read: a mutating big.Int method never has one of them as its receiver outside package initialisation, so encoding/decoding stays a function of its input", floor)
+	want := map[string]bool{}
+	for _, k := range pkgs {
+		want[k] = true
+	}
+	for _, f := range p.ModFuncs {
+		pk := an.FuncPkg(f)
+		if pk == nil || !want[pk.Path()] || f.Name() == "init" || strings.HasPrefix(f.Name(), "init#") {
+			continue
+		}
+		an.Instrs(f, func(in ssa.Instruction) {
+			cc := an.CallOf(in)
+			if cc == nil {
+				return
+			}
+			callee := cc.StaticCallee()
+			if callee == nil || !strings.HasPrefix(an.FuncKey(callee), "(*math/big.Int).") || len(cc.Args) == 0 {
+				return
+			}
+			g := fromPackageVar(cc.Args[0], 0)
+			readsGlobal := false
+			for _, a := range cc.Args {
+				if fromPackageVar(a, 0) != nil {
+					readsGlobal = true
+				}
+			}
+			if !readsGlobal {
+				return
+			}
+			key := sk(f) + ":" + callee.Name() + "@" + func() string {
+				if g != nil {
+					return g.Name()
+				}
+				return "arg"
+			}()
+			if g != nil && bigMutators[callee.Name()] {
+				c.Fail(key, sk(f)+" calls big.Int."+callee.Name()+" with the package-level value "+g.Name()+" as its receiver: the shared constant changes with every call, so the second encode/decode in one process uses a different mask/modulus than the first", posOf(c, in))
+			} else {
+				c.OK(key, "package-level big.Int only read", posOf(c, in))
+			}
+		})
+	}
+}
+
+// ruleValidatedTokensAreDecodedTokens (C13): the membership test and the index lookup see the same words.
+func ruleValidatedTokensAreDecodedTokens(c *report.Ctx) {
+	p := c.P
+	c.Rule("validated-tokens", "IsMnemonicValid tests membership of exactly the tokens the decoders index with (strings.Fields of the sentence, no case folding or other rewriting): otherwise a sentence with a non-list word passes the test and the unguarded wordMap[word] lookup decodes it as index 0", 2)
+	fields := p.Fn("strings", "", "Fields")
+	trim := p.Fn("strings", "", "TrimSpace")
+	if fields == nil {
+		c.Lost("strings.Fields")
+		return
+	}
+	for _, name := range []string{"IsMnemonicValid", "MnemonicToByteArray", "EntropyFromMnemonic"} {
+		f := fn(c, pkgKeystore, "", name)
+		if f == nil {
+			continue
+		}
+		for i, s := range calls(f, fields) {
+			arg := an.CallOf(s).Args[0]
+			for {
+				if call, ok := arg.(*ssa.Call); ok && trim != nil && call.Call.StaticCallee() == trim {
+					arg = call.Call.Args[0]
+					continue
+				}
+				break
+			}
+			key := siteKey(f, "Fields(sentence)", i+1)
+			if par, ok := arg.(*ssa.Parameter); ok && par.Parent() == f {
+				c.OK(key, "tokens of the sentence as given", posOf(c, s))
+			} else {
+				c.Fail(key, name+" splits "+p.Desc(arg)+" instead of the sentence as given: the words it validates / decodes are not the words the other functions (and the seed derivation, which hashes the original string) see", posOf(c, s))
+			}
+		}
+	}
+}
